@@ -366,3 +366,9 @@ func DistLastSeed(d any) []byte { return nil }
 // OnSample lets a harness choose the values the (opaque) length/IAT distributions return
 // under the solver. Natively the real distributions are used.
 func OnSample(f func(min, max int) int) {}
+
+// SetClock freezes time.Now at the given Unix time under the solver (natively the real
+// clock runs). OnIntn lets a harness choose the results of the CSPRNG-backed Intn under
+// the solver (natively they come from the recorded tape).
+func SetClock(unix int64)     {}
+func OnIntn(f func(n int) int) {}
